@@ -97,11 +97,22 @@ def build_harness(variant=None, timeout=1500):
     if variant.features:
         cmd += ["--features", ",".join(variant.features)]
     t0 = time.time()
-    p = subprocess.run(cmd, cwd=HARNESS, env=env, stdout=subprocess.PIPE, stderr=subprocess.STDOUT, timeout=timeout)
+    hdir = HARNESS
+    alt = os.environ.get("VERIF_REPO") or os.environ.get("VP_RUN_REPO")
+    if alt:
+        # background runs (vp run --with-repo) and experiments build against a snapshot / scratch copy of the
+        # repository instead of /repo itself; the registered commands never set these variables
+        hdir = os.path.join(WORK, "harness-alt")
+        shutil.rmtree(hdir, ignore_errors=True)
+        shutil.copytree(HARNESS, hdir, ignore=shutil.ignore_patterns("target"))
+        ct = open(os.path.join(hdir, "Cargo.toml")).read().replace('path = "/repo"', 'path = "%s"' % alt)
+        open(os.path.join(hdir, "Cargo.toml"), "w").write(ct)
+        env["CARGO_TARGET_DIR"] = variant.target_dir + "-alt"
+    p = subprocess.run(cmd, cwd=hdir, env=env, stdout=subprocess.PIPE, stderr=subprocess.STDOUT, timeout=timeout)
     if p.returncode != 0:
         sys.stdout.write(p.stdout.decode(errors="replace")[-4000:])
         raise ToolError("harness build failed for variant %s" % variant.name)
-    built = os.path.join(variant.target_dir, "release", "verif-harness")
+    built = os.path.join(env["CARGO_TARGET_DIR"], "release", "verif-harness")
     if variant.binary != built:
         os.makedirs(os.path.dirname(variant.binary), exist_ok=True)
         shutil.copy2(built, variant.binary)
